@@ -8,7 +8,8 @@ import (
 )
 
 var allVT = []byte{tI32, tI64, tF32, tF64, tFR, tER}
-var allSigs = []string{">i", "i>i", ">I", "ii>i", ">", ">ii", ">f", "F>"}
+// (the multi-value signatures differ from each other in a LATER result only: a comparison that looks at the first result and the counts accepts them)
+var allSigs = []string{">i", "i>i", ">I", "ii>i", ">", ">ii", ">f", "F>", ">iI", ">iF", ">if"}
 
 var boundaryVals = []uint64{0, 1, 5, 0x7fffffff, 0x80000000, 0xffffffff, 0x100000000, 1 << 63, ^uint64(0),
 	0x7fa00001 /* f32 sNaN */, 0x7ff4000000000001 /* f64 sNaN */, 0x7fc00000, 42}
